@@ -268,6 +268,21 @@ impl<'tcx> Cx<'tcx> {
             }
             _ => {}
         }
+        // pointer to a static item (e.g. `&ring::aead::CHACHA20_POLY1305`)?
+        if let mir::Const::Val(mir::ConstValue::Scalar(rustc_middle::mir::interpret::Scalar::Ptr(ptr, _)), _) = c.const_ {
+            let aid = ptr.provenance.alloc_id();
+            if let Some(ga) = tcx.try_get_global_alloc(aid) {
+                match ga {
+                    rustc_middle::mir::interpret::GlobalAlloc::Static(did) => {
+                        o = o.s("static", &self.path(did));
+                    }
+                    rustc_middle::mir::interpret::GlobalAlloc::Function { instance } => {
+                        o = o.s("fnptr", &self.path(instance.def_id()));
+                    }
+                    _ => {}
+                }
+            }
+        }
         // named constant?
         if let mir::Const::Unevaluated(uv, _) = c.const_ {
             if uv.promoted.is_none() {
